@@ -19,6 +19,7 @@ func TestC02_StreamFidelity(t *testing.T) {
 	rec.Assume("AsyncAdapter writes are limited to what fits the socket buffer (net.Conn.Write blocks the single harness goroutine otherwise); no Cancel/Close in the middle of the checked stream except at the end")
 	vt.CheckSteps(t, 600, 30, func(rt *rapid.T) {
 		w := newWorld(rt)
+		w.checkReady = true
 		defer w.close()
 		w.checkContent = true
 		n := rapid.IntRange(1, 3).Draw(rt, "nobjs")
